@@ -52,7 +52,11 @@ CoreFailed(sc, r, Cs, core) ==
     IN  IF big
         THEN (IF WellFormed(R, core) /\ IsSpan(R, core) THEN {} ELSE {"core_well_formed_span"})
         ELSE IF ~r.hasExt
-        THEN (IF Cardinality(Cs) # 1 THEN {"core_one_chain_per_protocluster"} ELSE {})
+        (* one chain per protocluster - except that chains whose stretches of record overlap although their genes are not
+           within the cutoff of each other (a gene lying in the intron of another one) may share a core: the statement
+           counts distances between genes, the code merges overlapping cores *)
+        THEN (IF Cardinality(Cs) # 1 /\ ~\A c \in Cs : \E d \in Cs \ {c} : Overlaps(Cover(R, LocsOf(sc, c)), Cover(R, LocsOf(sc, d)))
+              THEN {"core_one_chain_per_protocluster"} ELSE {})
              \cup (IF ConnectClause(R, LocsOf(sc, base), core) # "ok"
                    THEN {"core_is_smallest_span_of_group:" \o ConnectClause(R, LocsOf(sc, base), core)} ELSE {})
         ELSE (IF ~\E E \in SUBSET cands : okE(E) THEN {"core_is_span_of_group_plus_extenders"} ELSE {})
